@@ -42,9 +42,10 @@ ExConvPolicy(ev, op) ==
   /\ ev.back = <<"ok", ev.p0>>                               \* which reads back as the policy
   /\ op[3] = "toJson" => FrontPolicyToJson(op[2]) = ev.doc   \* and is the JSON form the specification defines
 ExConvSchema(ev, op) ==
-  LET exp == FrontSchemaConv(op[2]) IN
+  LET res == op[3] = "toJsonResolved"
+      exp == IF res THEN FrontSchemaResolved(op[2]) ELSE FrontSchemaConv(op[2]) IN
   /\ ev.ffi[1] = exp
-  /\ ev.api[1] = (IF FrSchemaSources[op[2]].good THEN "ok" ELSE "fail")     \* the API converts fragments
+  /\ ev.api[1] = (IF res THEN exp ELSE IF FrSchemaSources[op[2]].good THEN "ok" ELSE "fail")     \* the API converts fragments
   /\ exp = "ok" => /\ ev.ffi[2] = ev.api[2]
                    /\ ev.source[1] = "ok" /\ ev.reloaded = ev.source /\ ev.apiReloaded = ev.source
 ExFormat(ev, op) ==
